@@ -176,8 +176,8 @@ func checkC03(w *World, r *Report) {
 	r.NotDecided = "that the matching arithmetic equals the stated demand function for all order books; ties; the allocation amounts themselves; zero-demand handling as numbers."
 	r.Rule("MONO-SEARCH", "binary-search predicate is false only when demand exceeds supply", 2)
 	r.Rule("SEARCH-DIR", "the search runs over prices in ascending order", 1)
-	r.Rule("CAP-MIN", "accumulated quantity = min(request, remaining allowance)", 2)
-	r.Rule("SUPPLY-GUARD", "accumulation unreachable when total + quantity > supply", 2)
+	r.Rule("CAP-MIN", "accumulated quantity = min(request, remaining allowance)", 1)
+	r.Rule("SUPPLY-GUARD", "accumulation unreachable when total + quantity > supply", 1)
 	tm := NewTerms(w)
 	tree := settlementTree(w)
 	checkMonoSearch(w, r, tm, tree)
